@@ -22,7 +22,17 @@ def _carr(re, im=None):
 
 def realise(d):
     """descriptor -> numpy array (float64 or complex128; ``int`` kind gives
-    an integer array when real)."""
+    an integer array when real).  An optional ``gain`` (units of the data:
+    1e-9 ... 1e6) multiplies the result."""
+    g = d.get("gain", 1.0)
+    x = _realise(d)
+    return x if g == 1.0 else x * g
+
+
+gains = st.sampled_from([1.0, 1.0, 1.0, 1e-9, 1e6, 1e-4, 2000.0])
+
+
+def _realise(d):
     kind = d["kind"]
     n = d.get("n")
     cplx = bool(d.get("complex", False))
@@ -111,7 +121,7 @@ def realise(d):
 @st.composite
 def signal(draw, min_n=1, max_n=64, dtype="any",
            kinds=("noise", "tones", "ar", "trend", "const", "int", "dyn", "explicit"),
-           explicit_max=12, n=None, noise_levels=(0.0, 1e-3, 0.1, 1.0)):
+           explicit_max=12, n=None, noise_levels=(0.0, 1e-3, 0.1, 1.0), units=True):
     """Descriptor of a data vector.  dtype: 'real' | 'complex' | 'any'."""
     cplx = draw(st.booleans()) if dtype == "any" else (dtype == "complex")
     kind = draw(st.sampled_from(list(kinds)))
@@ -121,6 +131,12 @@ def signal(draw, min_n=1, max_n=64, dtype="any",
         else:
             n = draw(st.integers(min_n, max_n))
     d = {"kind": kind, "n": n, "complex": cplx}
+    if units:
+        # the data may be expressed in any unit (1e-9 ... 1e6): one case in six is not O(1).
+        # Rare branch = top values of the selector, so that shrinking goes to gain 1.
+        u = draw(st.integers(0, 11))
+        if u >= 10:
+            d["gain"] = draw(st.sampled_from([1e-9, 1e6, 1e-4, 2000.0]))
     if kind == "explicit":
         if n > explicit_max:
             d["kind"] = kind = "noise"
